@@ -53,6 +53,15 @@ class Site:
                 return True
         return False
 
+    def had(self, matcher, val=True):
+        """on every path the most recent evaluation of an atom matching `matcher` gave `val` (even if its operands were
+        modified since: use for status results of calls such as tok.skip(), parse(), lock())"""
+        tr = self.flow.trees
+        for f in self.facts:
+            if f[0] == "H" and f[2] == val and matcher(tr[f[1]]):
+                return True
+        return False
+
     def passed(self, name):
         return ("P", name) in self.facts or self.env.get("#" + name) == 1
 
@@ -61,7 +70,7 @@ class Site:
         return self.env.get("@" + name)
 
     def fact_keys(self):
-        return sorted(("%s=%s" % (f[1], "T" if f[2] else "F")) if f[0] == "A" else "passed:" + f[1] for f in self.facts)
+        return sorted(("%s=%s" % (f[1], "T" if f[2] else "F")) if f[0] == "A" else "passed:" + f[1] for f in self.facts if f[0] in ("A", "P"))
 
     def desc(self):
         return describe_event(self.ev)
@@ -167,6 +176,9 @@ class Flow:
         f = self._fact(tree, val)
         facts.discard(("A", f[1], not val))
         facts.add(f)
+        # history fact: "the most recent evaluation of this atom, whenever it was, gave val" (never killed by writes)
+        facts.discard(("H", f[1], not val))
+        facts.add(("H", f[1], val))
 
     def _kill(self, facts, names):
         if not names:
@@ -371,6 +383,20 @@ class Flow:
                     self.edges_pruned += 1
                     continue
                 imp = E.implied(cond, val)
+                # an edge whose implied leaf contradicts a fact that holds on every path to here is infeasible
+                contradicted = False
+                for t, v in imp:
+                    # only for atoms over locals/params/constants: their value cannot change behind our back
+                    # (facts about calls or fields may be invalidated by callees, which we do not track)
+                    if ("A", E.key(t), not v) in facts and all(
+                            n.get("k") in ("lit", "sizeof", "bin", "un", "cast", "icast", "null") or
+                            (n.get("k") == "ref" and n.get("dk") in ("local", "param", "enum"))
+                            for n in E.walk(t)):
+                        contradicted = True
+                        break
+                if contradicted:
+                    self.edges_pruned += 1
+                    continue
                 env2 = dict(env)
                 f2 = set(facts)
                 for t, v in imp:
